@@ -5,3 +5,23 @@ add("C01", "exploration",
     "trusts numpy float64, xarray accessors, the independent oracle in vmon/oracles/spectral.py; "
     "bin widths of non-uniform direction grids come from the object (judged by C02)",
     "runtime postcondition contracts (icontract) + metamorphic monitors over seeded workloads", "4/C01")
+add("C02", "exploration",
+    "Postconditions on direction_step/e/a1/b1/a2/b2 recompute wrapped bin widths and weighted sums from the raw "
+    "arrays for hundreds to tens of thousands of seeded 2D spectra on hostile direction grids (rotated, offset, "
+    "non-uniform, 8..144 bins, NaN/zero bins); the 1D reduction is compared with the 2D object on every bulk "
+    "parameter and carried-over variable. Held-on-K-executions.",
+    "trusts numpy/xarray and the oracle; assumes all direction gaps < 180 degrees; accepts forward/backward/"
+    "centred wrapped differences as bin width on non-uniform grids",
+    "runtime postcondition contracts on class properties + paired-execution (2D vs 1D) monitor", "4/C02")
+add("C03", "exploration",
+    "Definitions judged by postconditions (independent band-weighted trapezoid, atan2, spread formula, ranges) on "
+    "every call; rotation by k bins and mirror image judged by paired executions of the real code "
+    "(quick 4 random k per case, thorough all k). Held-on-K-executions.",
+    "trusts the oracle; energy without NaN; angular comparisons modulo 360 with 1e-6 degree bound",
+    "runtime postcondition contracts + metamorphic (rotation/mirror) pair monitors", "4/C03")
+add("C04", "exploration",
+    "Postconditions recompute the first in-band argmax by explicit loop for spectra with ties, plateaus, "
+    "edge peaks, out-of-band global peaks, NaN bins; batch members are re-run alone and compared; "
+    "peak wavenumber judged by the dispersion residual at each point's own depth. Held-on-K-executions.",
+    "bands whose in-band maximum is <= 0 are not judged (peak undefined); whole-NaN spectra excluded",
+    "runtime postcondition contracts + batch-vs-single paired executions", "4/C04")
